@@ -791,7 +791,13 @@ class _Sim:
         return content
 
     def derived(self, path: str) -> str:
-        blob = json.dumps(self.acc, sort_keys=True)
+        """Default content of a written file: a function of the SET of (name, content) pairs read
+        so far, not of their order or multiplicity.  A step that is redefined with an amended
+        input promoted to a declared input reads that file twice under ``auto``; a real
+        deterministic command does not change its output for that, and StepUp rightly skips it
+        (same input digest)."""
+        acc = sorted({json.dumps(x, sort_keys=True) for x in self.acc})
+        blob = json.dumps(acc)
         return f"{self.label}|{path}|{hashlib.sha256(blob.encode()).hexdigest()[:16]}\n"
 
     def write(self, path: str, content: str, parts: int = 1):
